@@ -82,7 +82,7 @@ RE_TOKS = ["if", "el", "else", "elif", "se", "except", "finally", "for", "try", 
 PR_LINES = ["if x:", "elif y:", "else:", "for a in b:", "while 1:", "try:", "except A:", "except:", "except B:", "finally:",
             "with a as b:", "def f():", "class C:", "pass", "__M_writer('a')", "# c", "  # c", "", "  ", "x = {1:",
             "else", "format = context.get('format', UNDEFINED)", "if x: # c", "else: #c", "x = 1 # if:",
-            "elsewhere = 3:", "iffy:", "\n"]
+            "elsewhere = 3:", "iffy:", "\n", "elif b and \\\n     c:", "except (A, \\\n    B):", "else: # c\n"]
 
 
 def _printer():
@@ -158,7 +158,7 @@ def real_print_answer(calls):
         for nl in pending:
             out.append(new[i][0])
             i += nl
-    return " ".join((["1" if err else "0", str(p.indent)] +
+    return " ".join((["1" if err else "0", str(p.indent), "1" if getattr(p, "suite_is_empty", None) else "0"] +
                      [("none" if d is None else d) for d in reversed(p.indent_detail)] + ["|"] + [str(x) for x in out]))
 
 
@@ -179,7 +179,7 @@ def stream_printer(ctx, drv):
     cases = []
     base = [("W", l) for l in PR_LINES] + [("W", None), ("B", "x = 1\ny = 2"), ("B", "  if a:\n      b = 1")]
     for n in range(0, 3 if ctx.quick else 4):
-        for t in itertools.product(base[:14] + base[-3:] if n == 3 else base, repeat=n):
+        for t in itertools.product(base[:15] + base[-6:] if n == 3 else base, repeat=n):
             cases.append(list(t))
     for _ in range(3000 if ctx.quick else 40000):
         cases.append([ctx.rng.choice(base + [("W", None)] * 3) for _ in range(ctx.rng.randint(3, 12))])
@@ -418,11 +418,6 @@ def hazards(body):
     """names of the recorded-finding shapes present in a template (sorted list)"""
     hz = set()
     for n in G.walk(body):
-        if n[0] in ("if", "for", "while", "try", "with"):
-            for b in G.sub_bodies(n):
-                real = [c for c in b if c[0] != "comment"]
-                if real and all(c[0] in ("def", "modcode") for c in real):
-                    hz.add("silent-suite")
         if n[0] == "for" and n[5].get("cmt") and ":" in n[5]["cmt"] and G.detected(n):
             hz.add("for-comment-colon")
         if n[0] in ("def", "block"):
@@ -990,8 +985,6 @@ def quirk_trees():
     F = G.FL
     loop_i = ["expr", ["loop", "index"]]
     return {
-        "silent-suite": [[["if", [[["truthy", ["lit", "p"]], [["def", 1, [], F(), [["text", "q"]]]]]], None, _o(2)],
-                          ["text", "z"]]],
         "ret-in-buffering": [
             [["def", 1, [], F(buffered=True), [["text", "x"], ["py", [["ret"]], None], ["text", "y"]]],
              ["text", "["], ["expr", ["call", 1, []]], ["text", "]"]],
@@ -1021,7 +1014,6 @@ def quirk_trees():
 
 
 QUIRKS = [
-    ("silent-suite", dict(silent_suite=True, constructs={"text": 1, "def": 6, "if": 3, "for": 2, "comment": 1}, max_body=2)),
     ("ret-in-buffering", dict(ret_in_buffered=True, constructs={"text": 4, "expr": 4, "def": 5, "ret": 3, "if": 1})),
     ("loop-only-in-closure", dict(loop_only_in_closure=True, loop_only_in_call_expr=True, p_loop_use=0.1,
                                   constructs={"text": 3, "expr": 3, "for": 6, "def": 4, "call": 4})),
@@ -1091,7 +1083,11 @@ def handwritten(ctx):
          "K\n\n", None),
         ("loop-after-try", "% for a in [1, 2]:\n% try:\n% for b in [7, 8]:\n${loop.index}${boom()}\n% endfor\n% except Boom:\n"
                            "!${loop.index}\n% endtry\n% endfor\n", {"__k": 1}, "0\n1!0\n0\n1\n", None),
-        ("modcode-only-suite", "% if x:\n<%! import os %>\\\n% endif\nok", {"x": 1}, "ok", "header-suite-of-module-code"),
+        ("modcode-only-suite", "% if x:\n<%! import os %>\\\n% endif\nok", {"x": 1}, "ok", None),
+        ("def-only-suites", "% if x:\n<%def name=\"d()\">q</%def>\\\n% elif y:\n<%! import os %>\\\n% else:\n## c\n% endif\n"
+                            "% for a in b:\n<%def name=\"e()\">zz</%def>\\\n% endfor\nok${d()}", {"x": 0, "y": 1, "b": [1]}, "okq", None),
+        ("continued-clauses", "% if a:\nx\n% elif b and \\\n     c:\ny\n% endif\n% try:\n${kboom()}\n% except (KeyError, \\\n    ValueError):\nz\n% endtry\n",
+         {"a": 0, "b": 1, "c": 1, "__k": 0}, "y\nz\n", None),
         ("header-formfeed", "% if x:\x0c\nA\n% endif\n", {"x": 1}, "A\n", "header-trailing-formfeed"),
     ]
     for name, src, data, expect, site in H:
@@ -1126,7 +1122,7 @@ def run(ctx):
                     ctx.branch("node:" + kk, v)
                 hz = hazards(body)
                 if not cfg.effective:       # nothing is mangled: only the shapes that do not involve `loop` matter
-                    hz = [h for h in hz if h in ("silent-suite", "ret-in-buffering")]
+                    hz = [h for h in hz if h in ("ret-in-buffering",)]
                 if hz:
                     ctx.branch("generator:hazard-in-main-stream:" + "+".join(hz))
                 run_template(ctx, body, cfg, "oracle.native", st, pending, skel, lowered, n)
